@@ -129,7 +129,10 @@ impl JsonIndex<Vec<u64>> {
         let ib_len = json.len();
 
         // Count actual BP bits
-        let bp_bit_count = count_bp_bits(&semi.bp);
+        // `count_bp_bits` assumes every open has a close. On malformed input
+        // (unclosed containers) that estimate can exceed the bits actually
+        // written; never claim more bits than the words hold.
+        let bp_bit_count = count_bp_bits(&semi.bp).min(semi.bp.len() * 64);
 
         // Build cumulative popcount index for IB
         let ib_rank = build_ib_rank(&semi.ib);
